@@ -774,15 +774,19 @@ def r6_successors(F, res, rid):
             r = [e[1] for e in p.events if e[0] == "return"]
             if r and is_call(r[0], "LRItem::inc_position") and has_field(r[0][2][0], "items", "LRState"):
                 okc = True
-    names = {callee(t) for _, t in f.calls()}
+    fam = [f] + F.all_nested_closures(f)
+    names = {callee(t) for g in fam for _, t in g.calls()}
     flt = [mir.short(n) for n in names if any(k in n for k in ("Iterator::filter", "Iterator::skip", "Iterator::take", "::dedup"))]
-    tb = TermBuilder(f, F)
     lab = None
-    for b, t in f.calls():
-        if callee(t).endswith("LRState::<'g>::new_with_items"):
-            a = [tb.operand(x) for x in t["args"]]
-            lab = a[2]
-    if okc and not flt and lab is not None and (lab[0] in ("vfield", "field", "var")):
+    for g in fam:
+        tb = TermBuilder(g, F)
+        for b, t in g.calls():
+            if callee(t).endswith("LRState::<'g>::new_with_items"):
+                a = [tb.operand(x) for x in t["args"]]
+                lab = a[2]
+    if lab is None or not any(n.endswith("LRItem::inc_position") for n in names):
+        res.anchor_lost(rid, "create_new_states: construction of the successor states (new_with_items over inc_position clones) not recognised", f.loc())
+    elif okc and not flt and (lab[0] in ("vfield", "field", "var", "param")):
         res.ok(rid, "successors", f.loc(), "one successor per symbol after the dot with the inc_position clones of its items")
     else:
         res.violation(rid, "successors", "successor states are not `for each symbol after the dot: the grouped items with the dot moved` "
